@@ -13,18 +13,21 @@ func TestProp(t *testing.T) {
 	r := evid.New(t, "C20", evid.Config{
 		Level: "exploration",
 		Rule: "generated credentials / Authorization headers / request batches against the router assembled by interpreting main()'s statements over the real Init functions; " +
-			"non-trivial: a request to a registered route whose Authorization header is one byte edit away from the right one (as a header or as the decoded login:password)",
+			"non-trivial: a request to a registered route whose Authorization header is one byte edit away from the right one (as a header or as the decoded login:password); config: login and password from different sources/prefixes or a legacy name involved",
 		Assumptions: []string{
 			"the login contains no ':' (RFC 7617; BasicAuthMiddleware splits at the first colon) and neither credential contains NUL",
 			"header values are valid HTTP field values (no control bytes except TAB): others never reach a handler of net/http",
 			"non-canonical spellings of the right credentials (scheme case, extra blanks, unpadded or URL-safe base64) are don't-care",
 			"the binary is built without the `view` tag, like the default build: view.Init registers nothing",
+			"effective credentials per the unchanged main.go: a non-empty QRYN_*/CLOKI_* variable overrides the config file, each variable on its own; empty = absent; both prefixes set to different values is ambiguous (either value may be the effective one)",
+			"config/config-rand run the real package main as a child process in MODE=reader (writer/all need a live ClickHouse at start-up)",
 			"database interaction = a TCP connection to DATABASE_DATA[0].Host:Port, a look-up in the writer's service registry or a Request() on an insert service",
 		},
 	})
 	addHeader(r)
 	addSweep(r)
 	addRouter(r)
+	addConfig(r)
 	if os.Getenv("VERIF_REPLAY") == "" {
 		// one assembly up front: what was interpreted goes to the evidence
 		if a, err := Assemble(Settings{Login: "u", Password: "p", Mode: "all", Cors: true, Origin: "*"}); err == nil {
